@@ -6,7 +6,9 @@ from .e3a import AProg
 ASYNC6 = ["join_async", "try_join_async", "join_async_spawn", "try_join_async_spawn", "async_spawn", "try_async_spawn"]
 
 
-def aprog(pid, p, ds, mode, handler=None, **kw):
+def aprog(pid, p, ds, mode, handler=None, options=None, **kw):
+    if options:
+        p.options = [options]
     d = dsl.program_dsl(p)
     anyof = p.is_try
     r = dsl.program_ref(p, anyof=anyof)
@@ -48,6 +50,14 @@ def progress_set(tier):
                 p = fp.build(mac, ds, gated=mode)
                 small = sum(ds) <= (3 if "spawn" in mac else 4)
                 out.append(aprog("%s/%s/%s" % (mac, fp.pname(ds), mode), p, ds, mode, crosscheck=(small and mode == "one")))
+            if "spawn" in mac and len(ds) >= 2 and not alias:
+                # an operand awaited in place while the branches are built: the earlier branches are tasks already and must
+                # make progress meanwhile; the same with every value of the lazy_branches switch (no effect on async macros)
+                for oi, opts in enumerate((None, "lazy_branches(false)")):
+                    if oi and sum(ds) > 3:
+                        continue
+                    p = fp.build(mac, ds, gated="inplace")
+                    out.append(aprog("%s/%s/inplace%d" % (mac, fp.pname(ds), oi), p, ds, "inplace", options=opts))
             if not alias and sum(ds) <= 3:
                 hk = "and_then" if mac.startswith("try") else "then"
                 p = fp.build(mac, ds, gated="one", handler=hk)
@@ -92,6 +102,7 @@ REAL_HEADER = """use futures::future::ready;
 fn trt() -> tokio::runtime::Runtime { tokio::runtime::Builder::new_current_thread().build().unwrap() }
 fn trt_mt() -> tokio::runtime::Runtime { tokio::runtime::Builder::new_multi_thread().worker_threads(4).build().unwrap() }
 fn gate(g: usize) -> vrt::Pend { vrt::pend(inp(32 + g % 16) as usize) }
+fn after<T>(_: (), v: T) -> T { v }
 async fn gated(g: usize, site: &'static str, slot: usize, val: i32) -> i32 { gate(g).await; ev(site, &val); st(slot, val) }
 async fn gated_r(g: usize, site: &'static str, slot: usize, payload: i32, val: i32) -> Result<i32, i32> { gate(g).await; ev(site, &val); st_r(slot, payload, val) }
 async fn gated2(g: usize, g2: usize, site: &'static str, slot: usize, val: i32) -> i32 { gate(g).await; gate(g2).await; ev(site, &val); st(slot, val) }
